@@ -29,6 +29,51 @@ class Crash(Exception):
     """the injected ordinary exception"""
 
 
+class OtherThread:
+    """a second REAL thread whose execution is serialised with the main thread by hand-offs: it runs only while the
+    main thread waits inside the model (a blocked select, or the harness between two requests), and it can be made to
+    pause right after one of its own model calls (a preemption point: the thread was descheduled there)."""
+
+    def __init__(self, fn):
+        import threading
+        self.fn = fn
+        self.to_t2 = threading.Semaphore(0)
+        self.to_main = threading.Semaphore(0)
+        self.done = False
+        self.started = False
+        self.exc = None
+        self.thread = threading.Thread(target=self._run, daemon=True)
+
+    def _run(self):
+        self.to_t2.acquire()
+        try:
+            self.fn()
+        except BaseException as ex:      # noqa - reported to the main thread
+            self.exc = ex
+        finally:
+            self.done = True
+            self.to_main.release()
+
+    def resume(self):
+        """(main thread) let the other thread run until it pauses or finishes"""
+        if self.done:
+            return
+        if not self.started:
+            self.started = True
+            self.thread.start()
+        self.to_t2.release()
+        if not self.to_main.acquire(timeout=20):
+            raise RuntimeError("model: the other thread neither paused nor finished")
+        if self.done and self.exc is not None:
+            ex, self.exc = self.exc, None
+            raise ex
+
+    def pause(self):
+        """(other thread) hand control back to the main thread until resumed"""
+        self.to_main.release()
+        self.to_t2.acquire()
+
+
 class OS:
     def __init__(self, tty_fd=0, attrs=None, flags=2, sigint="default", wakeup=-1):
         self.tty_fd = tty_fd
@@ -52,6 +97,8 @@ class OS:
         self.blocked_selects = 0
         self.eof = False
         self.crash_skipped = False
+        self.other = None          # an OtherThread in flight
+        self.preempt_after_write = False
 
     # ---- bookkeeping
     def tick(self, what):
@@ -93,9 +140,33 @@ class FakeStream:
         return self._fd
 
 
+class ModelGap(BaseException):
+    """the code under test called an OS function the model does not implement (a harness limitation, never a verdict:
+    BaseException so that no `except Exception` of the code under test or of a harness turns it into one)"""
+
+
+class ModelModule:
+    """stands for a real module: modelled functions are attributes set on the instance, constants and exception classes
+    (ints, bytes, str, tuples, types) pass through from the real module, any other callable is a gap in the model"""
+
+    _PURE = {"default_int_handler", "strsignal", "Signals", "Handlers", "fspath", "fsencode", "fsdecode", "strerror"}
+
+    def __init__(self, real, **names):
+        self.__dict__["_real"] = real
+        self.__dict__.update(names)
+
+    def __getattr__(self, name):
+        real = self.__dict__["_real"]
+        v = getattr(real, name)          # AttributeError as on the real module
+        if isinstance(v, (int, float, bytes, str, tuple, frozenset, type)) or name in self._PURE:
+            return v
+        raise ModelGap("model: %s.%s is not modelled" % (real.__name__, name))
+
+
 def make_modules(m):
     """the replacement module objects bound to OS state `m`"""
-    termios = types.SimpleNamespace(TCSANOW=TCSANOW, VSTOP=VSTOP, VSTART=VSTART, VSUSP=VSUSP, error=OSError)
+    import termios as _termios, tty as _tty, fcntl as _fcntl, signal as _signal, os as _os, select as _select, time as _time
+    termios = ModelModule(_termios, error=OSError)
 
     def tcgetattr(f):
         m.tick("tcgetattr")
@@ -109,6 +180,9 @@ def make_modules(m):
         m.attrs[fd] = [x if not isinstance(x, list) else list(x) for x in attrs]
 
     termios.tcgetattr, termios.tcsetattr = tcgetattr, tcsetattr
+    termios.tcdrain = lambda f: m._fd(f) and None
+    termios.tcflush = lambda f, q: m._fd(f) and None
+    termios.tcflow = lambda f, a: m._fd(f) and None
 
     def setcbreak(f, when=TCSANOW):
         m.tick("setcbreak")
@@ -121,7 +195,21 @@ def make_modules(m):
         m.attrs[fd] = new
         return old
 
-    tty = types.SimpleNamespace(setcbreak=setcbreak)
+    def setraw(f, when=TCSANOW):
+        m.tick("setraw")
+        fd = m._fd(f)
+        old = [x if not isinstance(x, list) else list(x) for x in m.attrs[fd]]
+        new = [x if not isinstance(x, list) else list(x) for x in old]
+        new[0] &= ~(_termios.BRKINT | _termios.ICRNL | _termios.INPCK | _termios.ISTRIP | _termios.IXON)
+        new[1] &= ~_termios.OPOST
+        new[2] = (new[2] & ~(_termios.CSIZE | _termios.PARENB)) | _termios.CS8
+        new[LFLAG] &= ~(_termios.ECHO | _termios.ICANON | _termios.IEXTEN | _termios.ISIG)
+        new[CC][VMIN] = 1
+        new[CC][VTIME] = 0
+        m.attrs[fd] = new
+        return old
+
+    tty = ModelModule(_tty, setcbreak=setcbreak, setraw=setraw)
 
     def fcntl_(fd, cmd, arg=0):
         m.tick("fcntl")
@@ -133,7 +221,7 @@ def make_modules(m):
             return 0
         raise OSError(22, "unsupported fcntl")
 
-    fcntl = types.SimpleNamespace(fcntl=fcntl_, F_GETFL=F_GETFL, F_SETFL=F_SETFL)
+    fcntl = ModelModule(_fcntl, fcntl=fcntl_)
 
     # ---- signal
     def signal_(signum, handler):
@@ -158,8 +246,7 @@ def make_modules(m):
         m.wakeup = fd
         return old
 
-    signal = types.SimpleNamespace(signal=signal_, getsignal=getsignal, set_wakeup_fd=set_wakeup_fd, SIGINT=SIGINT,
-                                   Signals=int, SIG_DFL=0, SIG_IGN=1)
+    signal = ModelModule(_signal, signal=signal_, getsignal=getsignal, set_wakeup_fd=set_wakeup_fd, SIG_DFL=0, SIG_IGN=1)
 
     # ---- os
     def pipe():
@@ -216,9 +303,23 @@ def make_modules(m):
         if r is None:
             raise OSError(9, "Bad file descriptor")
         m.pipes[r].extend(data)
+        o = m.other
+        if o is not None and m.preempt_after_write and not o.done:
+            import threading
+            if threading.current_thread() is o.thread:
+                o.pause()            # descheduled right after the write: whoever waits on the pipe runs first
         return len(data)
 
-    os_ = types.SimpleNamespace(pipe=pipe, close=close, set_blocking=set_blocking, read=read, write=write, O_NONBLOCK=O_NONBLOCK)
+    def get_blocking(fd):
+        m.tick("get_blocking")
+        fd = m._fd(fd)
+        return not (m.flags.get(fd, 0) & O_NONBLOCK)
+
+    def isatty(fd):
+        return fd == m.tty_fd and fd in m.open_fds
+
+    os_ = ModelModule(_os, pipe=pipe, close=close, set_blocking=set_blocking, get_blocking=get_blocking, read=read, write=write,
+                      isatty=isatty, environ=_os.environ, getpid=_os.getpid)
 
     # ---- select / time
     def ready(rlist):
@@ -243,8 +344,14 @@ def make_modules(m):
             return rs, [], []
         if timeout is not None and timeout <= 0:
             return [], [], []
-        # blocked: things scheduled to happen while we wait happen now, one at a time
+        # blocked: a paused other thread gets the processor first, then things scheduled to happen while we wait
+        # happen, one at a time
         m.blocked_selects += 1
+        if m.other is not None and not m.other.done:
+            m.other.resume()
+            rs = ready(rlist)
+            if rs:
+                return rs, [], []
         deadline = None if timeout is None else m.clock + timeout
         while m.schedule:
             when, action = m.schedule[0]
@@ -262,12 +369,15 @@ def make_modules(m):
         m.clock = deadline + 0.001        # a real clock read after the wait is never exactly the deadline
         return [], [], []
 
-    select = types.SimpleNamespace(select=select_)
+    select = ModelModule(_select, select=select_)
 
     def time_():
         return m.clock
 
-    time = types.SimpleNamespace(time=time_)
+    def sleep_(d):
+        m.clock += max(0.0, d)
+
+    time = ModelModule(_time, time=time_, monotonic=time_, sleep=sleep_)
     threading = types.SimpleNamespace(current_thread=lambda: ("main" if m.main_thread else "worker"), main_thread=lambda: "main")
     return {"termios": termios, "tty": tty, "fcntl": fcntl, "signal": signal, "os": os_, "select": select, "time": time,
             "threading": threading}
